@@ -41,7 +41,7 @@ class Sched:
             opts = self.runnable()
             if not opts: break
             self.steps += 1
-            if self.steps > 2000: self.killed = True; break
+            if self.steps > 400: self.killed = True; break
             t = self.choose(opts, self.cur if (self.cur in opts) else None)
             self.cur = t
             t.sem.release(); self.main_sem.acquire()
@@ -158,4 +158,4 @@ def dfs():
             for alt in range(k + 1, m):
                 stack.append([c for c, _ in tr[:i]] + [alt])
     print('schedules', n, 'bad', bad, 'time', round(time.time() - t0, 2), dict(orders))
-dfs()
+if __name__ == "__main__": dfs()
